@@ -7,6 +7,17 @@ NOTE = ("Trusted: rustc nightly HIR/typeck/MIR construction, drop elaboration an
         "classification and builtin-meaning tables in /verif/rules (each entry read against the source). Generic code "
         "is analysed pre-monomorphisation. Only the named structural clause is decided, not the behavioural property.")
 CLAIMS = {
+ "C01": ("E-CANON + E-TABLE.reduce + E-RAW: the hash-consing discipline that 'equal functions => equal handles' rests on: "
+         "node Eq/Hash over children only; get_or_insert allocates on the Err arm only and files under the looked-up hash; "
+         "reviewed direct node constructions; level_swap mutates nodes only while out of the table; all 12 reduce functions "
+         "interpreted over their abstract child domain (no redundant node, canonical complement form, level agreement); "
+         "probe-chain accounting of the open-addressing unique table. Does not decide the 'iff' over histories.",
+         "MIR field/dominance rules + abstract interpretation of HIR reduce tables", "4 C01"),
+ "C17": ("E-RAW on linear_hashtbl::raw: inventory of writers of the free-slot counter, +1/-1 pairing with status stores, "
+         "provenance of retain's successor-is-free flag, Drain's full sweep, counter assignment when the slot array is replaced, "
+         "probe-loop guards. Necessary conditions of `free <= #FREE slots` (termination of lookups, intact probe chains); set "
+         "semantics over operation sequences is not decided.",
+         "MIR dataflow/dominance rules with a frozen writer table", "3.8, 4 C17"),
  "C02": ("E-TABLE + E-WRAP: the terminal/base-case table of all 8 BDD connectives is enumerated over its abstract "
          "operand domain and compared with truth tables; every BooleanFunction `x_edge` wrapper (BDD, BCDD, ZBDD; ST and MT) "
          "is interpreted symbolically and must denote the connective it is named for; default methods forward to their _edge "
